@@ -10,6 +10,7 @@ mod seam;
 mod storesim;
 mod threadmodel;
 mod world;
+mod wsenv;
 
 use driver::{CheckArgs, ReplayFile, Tier};
 
